@@ -209,9 +209,61 @@ fn planx_case(cx: &mut Ctx, desc: &[ND]) {
     cx.count("plan:executed");
     if lit != opt || lit != optp {
         let nore = run(true, None, true);
-        let sig = if nore == lit && lit == run(true, Some(parts), true) { "planned-differs-from-literal-only-through-reorder-pass" } else { "optimised-chain-computes-something-else" };
-        cx.oracle_fail(idx, sig, format!("literal={lit} optimised={opt} optimised-par{parts}={optp} without-reorder-pass={nore}"));
+        // the listed finding is exactly "every all-movable fused block is STABLY sorted by (cost != 1, cost)": the
+        // optimised run must equal the literal run of the chain whose blocks the harness itself sorted that way
+        // (std's stable `sort_by_key`, nothing from the planner). Any other deviation has an unlisted signature.
+        let sd = stable_sorted_desc(desc);
+        // (run through the OTHER passes — fuse, lift, drop_mid — so that restating markers are dropped exactly as in
+        // the optimised chain; only the reorder pass is replaced by the harness's own sort)
+        let st = { let b = build_chain(&sd); let chain = pv::drop_mid(pv::lift(pv::fuse(b.chain))); exec_answer(guarded(move || rv::exec_seq::<Row>(chain))) };
+        let sig = if nore == lit && lit == run(true, Some(parts), true) && opt == st && optp == st { "planned-differs-from-literal-only-through-reorder-pass" }
+                  else if nore == lit { "reorder-pass-is-not-the-stable-cost-sort" }
+                  else { "optimised-chain-computes-something-else" };
+        cx.oracle_fail(idx, sig, format!("literal={lit} optimised={opt} optimised-par{parts}={optp} without-reorder-pass={nore} stable-cost-sorted-literal={st}"));
     }
+}
+
+/// the chain with consecutive stateless nodes fused and every all-movable block sorted by the HARNESS with std's
+/// stable sort on `(cost != 1, cost)` — what the documented reorder pass is allowed to produce, computed independently
+fn stable_sorted_desc(desc: &[ND]) -> Vec<ND> {
+    let mut out: Vec<ND> = vec![];
+    for n in desc {
+        match (out.last_mut(), n) {
+            (Some(ND::St(acc)), ND::St(ops)) => acc.extend(ops.iter().cloned()),
+            _ => out.push(n.clone()),
+        }
+    }
+    for n in out.iter_mut() {
+        if let ND::St(ops) = n {
+            if ops.iter().all(|o| o.kp && o.vo && o.rs) { ops.sort_by_key(|o| (o.cost != 1, o.cost)); }
+        }
+    }
+    out
+}
+
+/// a LONG all-movable block (21..100 ops, costs drawn from a small set so that most keys tie, few multiplications so
+/// that nothing overflows): longer than the insertion-sort regime of std's unstable sorts, so a planner that loses
+/// stability, or sorts by a different key, shows up both structurally and in the executed result
+fn gen_long_block(cx: &mut Ctx) -> Vec<OpDesc> {
+    let len = *cx.rng.pick(&[21usize, 24, 33, 40, 48, 64, 100]);
+    let costs: &[u8] = *cx.rng.pick(&[&[1u8, 2, 3][..], &[2, 3][..], &[1, 3, 3, 3][..], &[0, 1, 2, 3, 10][..]]);
+    let mut muls = 0;
+    (0..len).map(|_| {
+        let mut code = *cx.rng.pick(&['A', 'A', 'A', 'F', 'M']);
+        if code == 'M' { muls += 1; if muls > 6 { code = 'A'; } }
+        let arg = match code { 'A' => cx.rng.range(-3, 4), 'M' => cx.rng.range(2, 3), _ => cx.rng.range(2, 4) };
+        OpDesc { code, arg, kp: true, vo: true, rs: true, cost: *cx.rng.pick(costs), defaulting: false }
+    }).collect()
+}
+
+fn gen_long_chain(cx: &mut Ctx) -> Vec<ND> {
+    let block = gen_long_block(cx);
+    let mut c = vec![ND::Src((0..1 + cx.rng.below(8)).map(|_| (cx.rng.range(0, 3), cx.rng.range(-4, 9))).collect())];
+    // the block arrives as one node or as several consecutive nodes that fuse
+    if cx.rng.chance(1, 2) { c.push(ND::St(block)); }
+    else { let cut = 1 + cx.rng.below(block.len() - 1); c.push(ND::St(block[..cut].to_vec())); c.push(ND::St(block[cut..].to_vec())); }
+    if cx.rng.chance(1, 3) { c.push(ND::Gbk); c.push(ND::Cvl); }
+    c
 }
 
 fn gen_op(cx: &mut Ctx, group_typed: bool, honest: bool) -> OpDesc {
@@ -426,6 +478,10 @@ pub fn run(cx: &mut Ctx) {
     ];
     for c in &corpus { plan_case(cx, c); }
     for c in &[corpus[0].clone(), corpus[1].clone(), corpus[3].clone(), corpus[5].clone(), corpus[6].clone(), corpus[7].clone(), corpus[8].clone()] { planx_case(cx, c); }
+
+    // long all-movable blocks (beyond the small-sort regime of std's sorts)
+    cx.notes.push("long all-movable blocks: lengths 21,24,33,40,48,64,100 with tied costs, structural (PLAN) and executed (PLANX)".into());
+    for _ in 0..cx.budget(16, 300) { let c = gen_long_chain(cx); cx.count("plan:long-movable-block"); plan_case(cx, &c); planx_case(cx, &c); }
 
     let n = cx.budget(1500, 30000);
     for _ in 0..n { let c = gen_struct_chain(cx); plan_case(cx, &c); }
